@@ -326,6 +326,13 @@ func (fr *FuncRun) runRegion(f *Frame, order []*ssa.BasicBlock, within map[*ssa.
 				rets = append(rets, retRec{st: cur, results: res})
 				alive = false
 			case *ssa.Panic:
+				if mi, ok := x.X.(*ssa.MakeInterface); ok {
+					if cst, ok := mi.X.(*ssa.Const); ok && cst.Value != nil && strings.Contains(cst.Value.ExactString(), "blocking select matched no case") {
+						// go/ssa's fall-through of a blocking select: the select index is one of its cases
+						alive = false
+						continue
+					}
+				}
 				if f.top || true {
 					fr.assertOb(cur, "explicit-panic", "panic", "false", x.Pos(), "explicit panic reachable")
 				}
@@ -334,7 +341,9 @@ func (fr *FuncRun) runRegion(f *Frame, order []*ssa.BasicBlock, within map[*ssa.
 				if os.Getenv("GOVC_DEBUG_WRITES") != "" {
 					fr.curInstr = fmt.Sprintf("%s: %s", f.fn.Name(), ins.String())
 				}
+				fr.curFrame, f.curBlk, fr.curPos = f, blk, ins.Pos()
 				fr.execInstr(f, cur, ins)
+				fr.curFrame, f.curBlk = f, blk
 			}
 		}
 	}
@@ -527,6 +536,14 @@ func (fr *FuncRun) enterLoop(f *Frame, head *ssa.BasicBlock, body map[*ssa.Basic
 			// the hidden index of a range loop starts at -1 and is only ever incremented
 			fr.assume(cur, "(>= "+nv.T+" (- 1))")
 		}
+		if al, isAlloc := c.v.(*ssa.Alloc); isAlloc && al.Comment == "rangeint.iter" {
+			// go/ssa lowers `for i := range n` to: iter = 0; if 0 < n goto body; body: ...; iter++; if iter < n goto body.
+			// The counter is only ever incremented from 0, and every edge into the body is guarded by iter < n.
+			fr.assume(cur, "(>= "+nv.T+" 0)")
+			if n := rangeIntBound(head, al); n != nil {
+				fr.assume(cur, "(< "+nv.T+" "+fr.val(f, cur, n).T+")")
+			}
+		}
 		if t := cellType(c); t != nil {
 			fr.rangeAssume(cur, nv.T, t)
 			if st, isSlice := t.Underlying().(*types.Slice); isSlice && nv.FreshArr {
@@ -562,6 +579,7 @@ func (fr *FuncRun) enterLoop(f *Frame, head *ssa.BasicBlock, body map[*ssa.Basic
 			continue
 		}
 		framed := true
+		weak := false
 		var inv []string
 		seen := map[string]bool{}
 		for _, aw := range alog[h] {
@@ -573,8 +591,12 @@ func (fr *FuncRun) enterLoop(f *Frame, head *ssa.BasicBlock, body map[*ssa.Basic
 				continue
 			}
 			if !aw.fresh {
-				framed = false
-				break
+				if aw.term == "?" || hasBound(aw.term) {
+					framed = false
+					break
+				}
+				// not statically fresh: fall back to the weak frame and make each such write prove its freshness
+				weak = true
 			}
 		}
 		if len(alog[h]) == 0 && ws.oldHeaps[h] {
@@ -591,7 +613,21 @@ func (fr *FuncRun) enterLoop(f *Frame, head *ssa.BasicBlock, body map[*ssa.Basic
 			}
 		}
 		a := fr.freshName("a")
-		conds := []string{fmt.Sprintf("(and (not (= %s 0)) (<= (fa_root %s) %s))", a, a, topAtEntry)}
+		bound := topAtEntry
+		if weak {
+			bound = "AllocBase"
+			if f.weakLoops == nil {
+				f.weakLoops = map[*ssa.BasicBlock]*weakLoop{}
+			}
+			wl := f.weakLoops[head]
+			if wl == nil {
+				wl = &weakLoop{body: body, heaps: map[string]bool{}}
+				f.weakLoops[head] = wl
+			}
+			wl.heaps[h] = true
+			wl.marker = marker
+		}
+		conds := []string{fmt.Sprintf("(and (not (= %s 0)) (<= (fa_root %s) %s))", a, a, bound)}
 		for _, x := range inv {
 			conds = append(conds, "(not (= "+a+" "+x+"))")
 		}
@@ -1403,4 +1439,47 @@ func calleeName(c *ssa.CallCommon) string {
 		return b.Name()
 	}
 	return exprText(c.Value)
+}
+
+// rangeIntBound recognises the shape go/ssa gives a range-over-int loop whose body starts at head: every
+// predecessor ends in `if x < n goto head` with the same SSA value n. It returns n, or nil.
+func rangeIntBound(head *ssa.BasicBlock, iter *ssa.Alloc) ssa.Value {
+	var n ssa.Value
+	mine := false
+	for _, p := range head.Preds {
+		if len(p.Instrs) == 0 || len(p.Succs) != 2 || p.Succs[0] != head {
+			return nil
+		}
+		ifi, ok := p.Instrs[len(p.Instrs)-1].(*ssa.If)
+		if !ok {
+			return nil
+		}
+		b, ok := ifi.Cond.(*ssa.BinOp)
+		if !ok || b.Op != token.LSS {
+			return nil
+		}
+		if n != nil && n != b.Y {
+			return nil
+		}
+		n = b.Y
+		// the back edge compares this counter's incremented value
+		if add, ok := b.X.(*ssa.BinOp); ok && add.Op == token.ADD {
+			if ld, ok := add.X.(*ssa.UnOp); ok && ld.Op == token.MUL && ld.X == iter {
+				mine = true
+			}
+		}
+	}
+	if !mine {
+		return nil
+	}
+	if _, isConst := n.(*ssa.Const); n == nil || isConst {
+		return n
+	}
+	if in, ok := n.(ssa.Instruction); ok && in.Block() != nil && in.Block().Dominates(head) && in.Block() != head {
+		return n
+	}
+	if _, ok := n.(*ssa.Parameter); ok {
+		return n
+	}
+	return nil
 }
